@@ -634,6 +634,12 @@ impl Exec {
     pub fn apply(&mut self, idx: usize, op: &Op) -> R<()> {
         if std::env::var("FJV_TRACE").is_ok() {
             let sealed: Vec<(u8, usize, usize)> = self.handles.iter().map(|(k, h)| (*k, h.tree.sealed_memtable_count(), h.tree.l0_run_count())).collect();
+            if std::env::var("FJV_TRACE_LEVELS").is_ok() {
+                for (k, h) in &self.handles {
+                    let lv: Vec<usize> = (0..7).map(|l| h.tree.level_table_count(l).unwrap_or(0)).collect();
+                    eprintln!("   ks{k} tables per level {lv:?} disk={} compactions_done={}", h.disk_space(), if self.is_open() { self.db().compactions_completed() } else { 0 });
+                }
+            }
             eprintln!("op {idx}: {} | (ks, sealed, l0 runs) = {sealed:?} pending={}", op.to_line().chars().take(100).collect::<String>(), if self.is_open() { self.db().verif_pending_work() } else { 0 });
         }
         self.emit_mark(&format!("S {idx}"));
